@@ -85,7 +85,17 @@ type groupScen struct {
 	countsEver  map[string][]int // topic -> partition counts it has had
 	countsAt    map[string][]int64 // ... and since when (us)
 	lastPlanOwner map[string]string
+	hbFences    []*hbFence
 	abandoned   bool // a crashed member's goroutines are left behind: the run ends by exiting the process
+}
+
+// hbFence: a heartbeat the coordinator answered with REBALANCE_IN_PROGRESS / UNKNOWN_MEMBER_ID / ILLEGAL_GENERATION.
+type hbFence struct {
+	client, member string
+	gen            int32
+	err            sarama.KError
+	c              *simConn
+	corr           int32
 }
 
 type fenceMark struct {
@@ -828,6 +838,12 @@ func (gs *groupScen) wireModelHooks() {
 			gs.mustBeFresh[client] = &fenceMark{c, corr}
 		}
 	}
+	gm.onHeartbeatAns = func(client string, r *sarama.HeartbeatRequest, e sarama.KError, c *simConn, corr int32) {
+		switch e {
+		case sarama.ErrRebalanceInProgress, sarama.ErrUnknownMemberId, sarama.ErrIllegalGeneration:
+			gs.hbFences = append(gs.hbFences, &hbFence{client: client, member: r.MemberId, gen: r.GenerationId, err: e, c: c, corr: corr})
+		}
+	}
 	gm.onVoided = func(client string) {
 		if li := gs.lastIssued[client]; li != nil {
 			li.void = true
@@ -891,8 +907,43 @@ func (gs *groupScen) onHang(dump string) {
 	gs.judge()
 }
 
+// checkHeartbeatEnds: a heartbeat answer that announces a rebalance or fences the member ends the running session of
+// that identity - its context is cancelled when the answer arrives, not when the application happens to end it.
+// Judged only for answers that reached a connection which stayed healthy for the bound afterwards.
+func (gs *groupScen) checkHeartbeatEnds() {
+	bound := int64(100000 + 2*gs.c.Net.MaxUs)
+	for _, hf := range gs.hbFences {
+		hf.c.mu.Lock()
+		d, ok := hf.c.deliveredAt[hf.corr]
+		healthy := !hf.c.poisoned && (!hf.c.sawError || hf.c.errUs > d+bound)
+		hf.c.mu.Unlock()
+		if !ok || !healthy {
+			continue
+		}
+		for _, m := range gs.members {
+			if m.cfg == nil || m.cfg.ClientID != hf.client || m.crashed {
+				continue
+			}
+			for _, sr := range m.sessions {
+				if sr.memberID != hf.member || sr.generation != hf.gen || sr.setups == 0 {
+					continue
+				}
+				gs.r.probe("heartbeat-end-judged")
+				t0 := d
+				if sr.setupUs > t0 {
+					t0 = sr.setupUs
+				}
+				if sr.ctxDoneUs == 0 || sr.ctxDoneUs > t0+bound {
+					gs.r.violate("C07.heartbeat-end", "member %d session %d (member id %q gen %d): the coordinator answered its heartbeat with %v, delivered at %d us on a healthy connection, but the session's context was not cancelled by %d us (cancelled at %d; 0 = never): the session outlives the rebalance/fencing", m.idx, sr.n, sr.memberID, sr.generation, hf.err, d, t0+bound, sr.ctxDoneUs)
+				}
+			}
+		}
+	}
+}
+
 func (gs *groupScen) judge() {
 	r := gs.r
+	gs.checkHeartbeatEnds()
 	nf := 0
 	for _, n := range r.faults {
 		nf += n
